@@ -104,7 +104,8 @@ def runImp (prop fS tyS srcS extS implS00 : String) : Result :=
     let abstain := ms == "err EXT"
     let d := (if isPanic then !(ms.startsWith "panic") else ms != is) ||
       (match reS, mre with | some a, some b => (Dyn.parse? a).map (·.show) != some b | _, _ => false)
-    let isValue := match v with | .val _ => true | _ => false
+    -- a jsonline.Value hands its own declaration over to the cell; a nested Row does not
+    let isValue := match v with | .val (.cell ..) => true | _ => false
     let p : Option String :=
       match impl with
       | .panic _ => some "panic"
